@@ -37,7 +37,19 @@ def symbolic_pairs(actions):
     """one simplification after another (on the same or on a sharing expression): flags left on
     shared sub-expression objects by the first must not change what the second returns"""
     sym = [a for a in actions if a[0] in SYMBOLIC]
-    return [([a], f) for a in sym for f in sym] + [([a, a], f) for a in sym for f in sym if a[1] != f[1]][:600]
+    trees = pool_trees()
+
+    def compound_ids(t, acc):
+        from .. import spec
+        if t[0] not in spec.LEAF:
+            acc.add(id(t))
+            for c in spec.children(t):
+                compound_ids(c, acc)
+        return acc
+    ids = {k: compound_ids(t, set()) for k, t in trees.items()}
+    related = lambda p, q: p == q or bool(ids[p] & ids[q])      # the same expression, or one sharing a compound node
+    return [([a], f) for a in sym for f in sym if related(a[1], f[1])] + \
+           [([a, a], f) for a in sym for f in sym if a[1] != f[1] and related(a[1], f[1])]
 
 
 def repeated_queries(actions):
